@@ -35,23 +35,40 @@ Definition py_int (x : b64) : option Z :=
 (* int(np.round(x)): np.round with 0 decimals is rint (half to even) *)
 Definition int_round (x : b64) : option Z := py_int (Bnearbyint mode_NE x).
 
-(* Reader.ns (meta present):  int(np.round(self.meta.get("fileTimeSecs") * self.fs)) *)
-Definition ns_meta (fts fs : b64) : option Z := int_round (fmul fts fs).
+(* what evaluating `self.ns` can do *)
+Inductive nsres :=
+  | NsOk (ns : Z)
+  | NsInt          (* int() of inf / nan: OverflowError / ValueError *)
+  | NsType.        (* meta has no fileTimeSecs: None * float -> TypeError *)
 
-(* OnlineReader.ns:  int(self.file_bin.stat().st_size / self.dtype.itemsize / self.nc)
+(* Reader.ns (meta present):
+     int(np.round(self.meta.get("fileTimeSecs") * self.fs)) *)
+Definition ns_meta (fts : option b64) (fs : b64) : nsres :=
+  match fts with
+  | None => NsType
+  | Some t => match int_round (fmul t fs) with Some n => NsOk n | None => NsInt end
+  end.
+
+(* OnlineReader.ns:
+     int(self.file_bin.stat().st_size / self.dtype.itemsize / self.nc)
    (int/int true division is correctly rounded; for st_size < 2^53 that is the
-   float division of the two conversions) *)
-Definition ns_online (nbytes nc : Z) : option Z :=
-  py_int (fdiv (fdiv (of_Z nbytes) (of_Z 2)) (of_Z nc)).
+   float division of the two conversions; float / int converts the int) *)
+Definition ns_online (nbytes nc : Z) : nsres :=
+  match py_int (fdiv (fdiv (of_Z nbytes) (of_Z 2)) (of_Z nc)) with
+  | Some n => NsOk n | None => NsInt end.
 
 (* the `ns` property as seen by Reader.open, for either class *)
-Definition reader_ns (online : bool) (nbytes nc : Z) (fts fs : b64) : option Z :=
+Definition reader_ns (online : bool) (nbytes nc : Z) (fts : option b64) (fs : b64) : nsres :=
   if online then ns_online nbytes nc else ns_meta fts fs.
 
 Inductive outcome :=
-  | Opened (ns nc : Z) (fts : b64) (rewritten : bool)   (* shape (ns, nc), meta['fileTimeSecs'] afterwards *)
-  | MmapError                                           (* np.memmap raises ValueError *)
-  | IntError.                                           (* int() of inf / nan *)
+  | Opened (ns nc : Z) (fts : option b64) (rewritten : bool)
+      (* shape (ns, nc); meta.get('fileTimeSecs') afterwards; was it rewritten *)
+  | MmapError     (* np.memmap raises ValueError *)
+  | IntError      (* int() of inf / nan *)
+  | TypeErr       (* fileTimeSecs missing where Reader.ns needs it *)
+  | KeyErr.       (* the mismatch warning formats meta['fileSizeBytes'] / meta['fileTimeSecs']
+                     of a meta file that has none (recording in progress) *)
 
 (* np.memmap(file, dtype=int16, mode='r', shape=(ns, nc)):  mmap.mmap(fd, ns*nc*2)
    raises when the length exceeds the file size, when the file is empty, or
@@ -62,36 +79,50 @@ Definition memmap_ok (nbytes ns nc : Z) : bool :=
 (* Reader.open, flat-binary branch (dtype int16: itemsize 2):
      if self.nc * self.ns * itemsize != self.nbytes:
          ftsec = st_size // (itemsize * self.nc) / self.fs
-         self.meta["fileTimeSecs"] = ftsec
-     self._raw = np.memmap(..., shape=(self.ns, self.nc))            *)
-Definition open_bin (online : bool) (nbytes nc : Z) (fts fs : b64) : outcome :=
+         if self.meta is not None:
+             if not self.ignore_warnings: _logger.warning(f"...{self.meta['fileSizeBytes']}...{self.meta['fileTimeSecs']}...")
+             self.meta["fileTimeSecs"] = ftsec
+     self._raw = np.memmap(..., shape=(self.ns, self.nc))
+   warn_ok = ignore_warnings or (the meta has both fileSizeBytes and fileTimeSecs). *)
+Definition open_bin (online warn_ok : bool) (nbytes nc : Z) (fts : option b64) (fs : b64) : outcome :=
   match reader_ns online nbytes nc fts fs with
-  | None => IntError
-  | Some ns0 =>
+  | NsInt => IntError
+  | NsType => TypeErr
+  | NsOk ns0 =>
       let mismatch := negb (nc * ns0 * 2 =? nbytes) in
-      let fts' := if mismatch then fdiv (of_Z (nbytes / (2 * nc))) fs else fts in
+      if mismatch && negb warn_ok then KeyErr else
+      let fts' := if mismatch then Some (fdiv (of_Z (nbytes / (2 * nc))) fs) else fts in
       match reader_ns online nbytes nc fts' fs with
-      | None => IntError
-      | Some ns1 =>
+      | NsInt => IntError
+      | NsType => TypeErr
+      | NsOk ns1 =>
           if memmap_ok nbytes ns1 nc then Opened ns1 nc fts' mismatch else MmapError
       end
   end.
 
 (* Reader.open, mtscomp branch: the .ch file announces (chns, chnc);
      if self._raw.shape != (self.ns, self.nc):
-         self.meta["fileTimeSecs"] = self._raw.shape[0] / self.fs
+         ftsec = self._raw.shape[0] / self.fs
+         if not self.ignore_warnings: _logger.warning(f"...{self.meta['fileTimeSecs']}...")
+         self.meta["fileTimeSecs"] = ftsec
    no memmap; Reader.shape afterwards is (self.ns, self.nc). *)
-Definition open_cbin (chns chnc nc : Z) (fts fs : b64) : outcome :=
+Definition open_cbin (chns chnc nc : Z) (fts : option b64) (fs : b64) : outcome :=
   match ns_meta fts fs with
-  | None => IntError
-  | Some ns0 =>
+  | NsInt => IntError
+  | NsType => TypeErr
+  | NsOk ns0 =>
       let mismatch := negb ((chns =? ns0) && (chnc =? nc)) in
-      let fts' := if mismatch then fdiv (of_Z chns) fs else fts in
+      let fts' := if mismatch then Some (fdiv (of_Z chns) fs) else fts in
       match ns_meta fts' fs with
-      | None => IntError
-      | Some ns1 => Opened ns1 nc fts' mismatch
+      | NsInt => IntError
+      | NsType => TypeErr
+      | NsOk ns1 => Opened ns1 nc fts' mismatch
       end
   end.
 
 (* Reader.rl:  self.ns / self.fs *)
 Definition rl (ns : Z) (fs : b64) : b64 := fdiv (of_Z ns) fs.
+
+(* byte offset in the file of sample i, channel j of the C-ordered int16 memmap
+   of shape (ns, nc): what self._raw[i, j] dereferences (2 bytes from there) *)
+Definition byte_offset (nc i j : Z) : Z := 2 * (i * nc + j).
